@@ -65,12 +65,12 @@ func runC07(p *Program, r *Result) {
 	r.Rule("R07.4", "rejected input yields neither a header nor a payload reader", 10)
 	checkNothingOnError(p, r, parse, nil)
 	// ReadStanza has spilled results
-	for i, ret := range returnsOf(rs) {
-		v := resultsOf(ret)
+	for i, vr := range virtualReturns(rs) {
+		v := vr.Results
 		if isNilConst(v[1]) {
 			continue
 		}
-		r.Check(isNilConst(v[0]), rs.String(), "return#"+itoa(i), r.pos(ret), "error return with nil stanza", "a partial stanza is returned together with an error")
+		r.Check(isNilConst(v[0]), rs.String(), "return#"+itoa(i), r.pos(vr.Ret), "error return with nil stanza", "a partial stanza is returned together with an error")
 	}
 
 	// ---- R07.6
@@ -103,7 +103,30 @@ func runC07(p *Program, r *Result) {
 				deferred = true
 			}
 		}
-		r.Check(okStore && deferred, rs.String(), "sticky:defer", "", "deferred closure stores the returned error in r.err on every exit", "the returned error is not remembered in r.err by a deferred closure")
+		// the same without a defer: every return that may carry an error other than the
+		// remembered one stands behind `r.err = <that error>`
+		okExplicit := false
+		if !(okStore && deferred) {
+			okExplicit = true
+			rtb := p.TB(rs)
+			nErr := 0
+			for _, ret := range returnsOf(rs) {
+				errv := resultsOf(ret)[1]
+				if isNilConst(errv) || strings.HasPrefix(short(rtb.Term(errv).String()), "Field(Recv.err") {
+					continue
+				}
+				nErr++
+				stored := false
+				for _, fs := range p.fieldStores(pkgFormat+".StanzaReader", "err") {
+					if fs.Fn == rs && fs.Store.Val == errv && dominatesInstr(fs.Store, ret) {
+						stored = true
+					}
+				}
+				okExplicit = okExplicit && stored
+			}
+			okExplicit = okExplicit && nErr > 0
+		}
+		r.Check((okStore && deferred) || okExplicit, rs.String(), "sticky:defer", "", "deferred closure stores the returned error in r.err on every exit", "the returned error is not remembered in r.err by a deferred closure")
 	}
 }
 
@@ -304,19 +327,20 @@ func checkCanonicalParse(p *Program, r *Result, parse, rs, ivs, dec *ssa.Functio
 	}
 	// ---- ReadStanza
 	rtb := p.TB(rs)
-	var rsucc []*ssa.Return
-	for _, ret := range returnsOf(rs) {
-		if isNilConst(resultsOf(ret)[1]) {
-			rsucc = append(rsucc, ret)
+	var rsucc []VRet
+	for _, v := range virtualReturns(rs) {
+		if isNilConst(v.Results[1]) {
+			rsucc = append(rsucc, v)
 		}
 	}
 	if len(rsucc) != 1 {
 		r.Unk(rs.String(), "success-return", "", "expected exactly one success return")
 	} else {
-		ret := rsucc[0]
+		ret := rsucc[0].Ret
+		retBlock := rsucc[0].Block
 		l1 := `(*bufio.Reader).ReadBytes(Field(Recv.r), 10).0`
 		b := `format.DecodeString(strings.TrimSuffix(` + l1 + `, "\n"))`
-		needFacts(r, p, rs, ret.Block(), r.pos(ret), []struct{ key, text string }{
+		needFacts(r, p, rs, retBlock, r.pos(ret), []struct{ key, text string }{
 			{"stanza:prefix-bytes", `bytes.HasPrefix(` + l1 + `, "->")`},
 			{"stanza:prefix-token", `format.splitArgs(` + l1 + `).0 == "->"`},
 			{"stanza:has-type", `len(format.splitArgs(` + l1 + `).1) != 0`},
@@ -328,7 +352,7 @@ func checkCanonicalParse(p *Program, r *Result, parse, rs, ivs, dec *ssa.Functio
 		okArgs := false
 		for _, l := range rangeLoops(rs) {
 			over := short(rtb.Term(l.Over).String())
-			if over != `format.splitArgs(`+l1+`).1` || !p.completedAt(l, ret.Block()) {
+			if over != `format.splitArgs(`+l1+`).1` || !p.completedAt(l, retBlock) {
 				continue
 			}
 			// back edge only under isValidString(elem) true
